@@ -53,7 +53,7 @@ ASSUMPTIONS = [
 ]
 RULE = ("seeded generator (VERIF_SEED): op histories over Write/Sum/Reset of length <= 8 (quick) / <= 24 (thorough) with write lengths "
         "{0,1,55,56,57,63,64,65,119,120,127,128}, random < 200, random <= 8192 and Sum prefixes {nil, empty cap 64, 3 bytes no spare "
-        "capacity, 3 bytes cap 64}, every written buffer scribbled over afterwards; the same histories on hmac.New(sm3.New, key) with key "
+        "capacity, 3 bytes cap 64, the full grid len {0,1,31,32,33,63,64,100} x spare capacity {0,1,31,32,33} with the spare bytes pre-filled and inspected afterwards, the previous Sum result as prefix (h.Sum(prevDigest))}, every written buffer scribbled over afterwards; the same histories on hmac.New(sm3.New, key) with key "
         "lengths {0,1,63,64,65,200}; every message length 0..8192 of a seeded stream through Sm3Sum and New/Write/Sum (G: all lengths, "
         "model incremental; L: one by one against the extracted specification, 0..520 and boundary lengths in quick, all in thorough); "
         "partitions of messages into 1..8 writes with cuts biased to block boundaries and empty writes; streams 64 KiB..256 KiB (quick) / "
@@ -266,6 +266,7 @@ def _check_history(obj, digest_of, ops, io, wsuffix=""):
     if io[0] != "ok" or len(io) != 2:
         return False, "history did not complete: " + " ".join(io)[:80]
     outs = io[1].split(",")
+    last = b""
     if len(outs) != len(ops):
         return False, "number of results differs from the number of operations"
     for k, (o, got) in enumerate(zip(ops, outs)):
@@ -277,11 +278,14 @@ def _check_history(obj, digest_of, ops, io, wsuffix=""):
             if got != ("w%d" % len(p)) + wsuffix:
                 return False, "op %d: Write returned %s for %d bytes" % (k, got, len(p))
         elif o[0] == "S":
-            pre = _unhex(o[2])
-            want = (pre + digest_of(obj)).hex()
+            pre = last if o[1] == "p" else _unhex(o[2])
+            want_b = pre + digest_of(obj)
+            last = want_b
+            want = want_b.hex()
             if not got.startswith("s") or "/" not in got:
                 return False, "op %d: malformed Sum observation" % k
-            res, kept = got[1:].split("/")
+            parts = got[1:].split("/")
+            res, kept = parts[0], parts[1]
             if res != want:
                 if len(res) == len(want) and res[:2 * len(pre)] != pre.hex():
                     return False, "op %d: Sum(prefix) did not return the caller's prefix followed by the digest" % k
@@ -290,6 +294,9 @@ def _check_history(obj, digest_of, ops, io, wsuffix=""):
                 return False, "op %d: Sum returned %d bytes, expected prefix (%d) + 32" % (k, len(res) // 2, len(pre))
             if kept != "1":
                 return False, "op %d: Sum modified the caller's prefix bytes" % k
+            if o[1].startswith("g"):
+                if len(parts) < 3 or parts[2] not in ("w0", "w1"):
+                    return False, "op %d: Sum wrote into the caller's array outside in[len(in):len(in)+32]" % k
         elif o[0] == "R":
             obj.reset()
             if got != "r":
